@@ -382,32 +382,56 @@ def fetch_width_rule(ctx, R3, X=None):
                          witness='66 a1 78 56 34 12 must be 6 bytes long' if what.startswith('moffs') else None)
     # get_afs: displacement tokens
     ga = arch.method('x86allmncs', 'get_afs')
-    FMT = {'x86_afs.u08': ('B', 1), 'x86_afs.s08': ('b', 1), 'x86_afs.u16': ('H', 2), 'x86_afs.u32': ('I', 4), 'x86_afs.s16': ('h', 2), 'x86_afs.s32': ('i', 4)}
+    # every displacement kind the ModRM tables can hold, read through get_afs itself (evaluated): bytes consumed and value
+    import struct as _struct
+    from ..consteval import Evaluator as _Ev1, Obj as _Obj1, Native as _Nat1, NotConst as _NC1, PyRaise as _PR1, class_obj as _cobj1
+    from .. import simpeval as _SE1
+    afs1 = X.afs
+    toks = [('u08', 1, 0xF0), ('s08', 1, -16), ('u16', 2, 0xDEF0), ('u32', 4, 0x9ABCDEF0)]
     n_tok = 0
-    for n in ast.walk(ga):
-        if isinstance(n, ast.If) and isinstance(n.test, ast.Compare) and u(n.test.left) == 'a[x86_afs.imm]' and u(n.test.comparators[0]) in FMT:
-            tok = u(n.test.comparators[0])
-            n_tok += 1
-            calls = [x for s in n.body for x in ast.walk(s) if isinstance(x, ast.Call) and u(x.func) == 'struct.unpack']
-            inst = 'get_afs:%s' % tok
-            if len(calls) != 1:
-                R3.violation(inst, 'disp:%s:shape' % tok, 'get_afs: displacement token %s is not read by one struct.unpack' % tok, where(arch, n))
+    for mode_name, mbits in (('u32', 32), ('u16', 16)):
+        for tok, nbytes, want in toks:
+            if (mode_name, tok) in (('u16', 'u32'),):
                 continue
-            call = calls[0]
-            fmt = call.args[0].value if isinstance(call.args[0], ast.Constant) else None
-            rd = call.args[1]
-            cnt = 1
-            if isinstance(rd, ast.Call) and u(rd.func) == 'bin.readbs':
-                cnt = rd.args[0].value if rd.args and isinstance(rd.args[0], ast.Constant) else (1 if not rd.args else None)
-            else:
-                cnt = None
-            if (fmt, cnt) == FMT[tok]:
-                R3.ok(inst, sample='displacement %s: unpack(%r, readbs(%d))' % (tok, fmt, cnt))
-            else:
-                R3.violation(inst, 'disp:%s:%s:%s' % (tok, fmt, cnt), 'get_afs reads displacement token %s with format %r from %s byte(s); expected %r from %d'
-                             % (tok, fmt, cnt, FMT[tok][0], FMT[tok][1]), where(arch, call))
-    if n_tok < 4:
-        raise AnalysisError('get_afs: only %d displacement token branches found' % n_tok)
+            for sib in (False, True):
+                data = (b'\x24' if sib else b'') + b'\xF0\xDE\xBC\x9A\x78'
+                pos = [0]
+
+                def readbs(k=1, _d=data, _p=pos):
+                    r = _d[_p[0]:_p[0] + k]
+                    _p[0] += k
+                    return r
+                b_ = _Obj1('bin')
+                b_.readbs = _Nat1(readbs)
+                entry = {getattr(afs1, 'imm'): getattr(afs1, tok), 0: 1, getattr(afs1, 'ad'): True}
+                table = [([dict(entry) for _ in range(256)] if sib else dict(entry)) for _ in range(256)]
+                me_ = _cobj1(arch, 'x86allmncs', 'self')
+                me_.db_afs = me_.db_afs_16 = me_.db_afs_mm = me_.db_afs_xmm = table
+                st_ = _Obj1('struct')
+                st_.unpack = _Nat1(_struct.unpack)
+                scope_ = dict((k_, v_) for k_, v_ in E.items() if isinstance(v_, (str, int, bool, list, tuple, dict)) or v_ is None)
+                scope_.update(_SE1.INT_CLASSES)
+                scope_.update({'x86_afs': afs1, 'struct': st_})
+                inst = 'get_afs:%s:%s%s' % (mode_name, tok, ':sib' if sib else '')
+                try:
+                    out = _Ev1(scope_).call_user(ga, [me_, b_, 0x04 if sib else 0x05, getattr(afs1, mode_name)])
+                except _PR1 as e:
+                    R3.violation(inst, 'disp:%s:raises:%s' % (tok, e.exc_name), 'get_afs raises %s on a ModRM table entry whose displacement is of kind %s' % (e.exc_name, tok), where(arch, ga))
+                    continue
+                except _NC1 as e:
+                    raise AnalysisError('x86allmncs.get_afs is outside the evaluable subset: %s' % e)
+                n_tok += 1
+                used = pos[0] - (1 if sib else 0)
+                a_ = out[1] if isinstance(out, tuple) and len(out) == 2 else None
+                val = a_.get(getattr(afs1, 'imm')) if isinstance(a_, dict) else None
+                ok_ = isinstance(val, int) and int(val) % (1 << mbits) == want % (1 << mbits) and used == nbytes and (not sib or pos[0] == nbytes + 1)
+                if ok_:
+                    R3.ok(inst, sample='displacement %s under %s addressing: %d byte(s), value %#x' % (tok, mode_name, nbytes, want % (1 << mbits)))
+                else:
+                    R3.violation(inst, 'disp:%s:%s:%s' % (tok, used, (hex(int(val)) if isinstance(val, int) else type(val).__name__)), 'get_afs reads a displacement of kind %s from %d byte(s) and gives %s; '
+                                 'it has %d byte(s) and the value %#x' % (tok, used, (hex(int(val) % (1 << mbits)) if isinstance(val, int) else repr(val)), nbytes, want % (1 << mbits)), where(arch, ga))
+    if n_tok < 12:
+        raise AnalysisError('get_afs: only %d displacement reads could be evaluated' % n_tok)
     # get_afs: table per mode -- the statements that choose the ModRM table are evaluated for every address mode
     from ..consteval import Evaluator as _Ev2, Obj as _Obj2, Native as _Nat2, NotConst as _NC2, PyRaise as _PR2
     pairs = {}
